@@ -401,3 +401,34 @@ VH_ENTRY vh_delete_putcopy() {
   free(params);
   VH_END();
 }
+
+// =================================================================================== C02: slot attribute access with arbitrary operands
+// ---- Slot::getAttr / Slot::setAttr with ANY attribute code and ANY sub-index (the opcodes pass operand bytes straight through): every access
+// stays inside the slot, its user-attribute block, the char-infos and the justification record; user attributes: exactly the named entry changes
+#ifndef NUSER
+#define NUSER NU
+#endif
+VH_ENTRY vh_slot_attr() {
+  World w; vh_make_face(w); vh_make_segment(w); vh_make_forest(w);
+  ASSUME(inv_stream(w) && inv_forest(w) && inv_assoc(w));
+  unsigned start, len, ctx; window(start, len, ctx);
+  VM_SETUP(w, start, len, ctx, 8);
+  Slot *cur = reg.is;
+  uint8_t code = nondet_u8(), sub = nondet_u8();
+  ASSUME(code != gr_slatAttTo);                         // re-attachment is the subject of the attach lemmas
+  // operands as the bytecode loader lets them through (Code.cpp: valid_upto(gr_slatMax, attr); indexed forms: valid_upto(limits.attrid[attr], index),
+  // which for user attributes is the font's user-attribute count; the non-indexed forms pass index 0 and refuse gr_slatUserDefn)
+  ASSUME(code < gr_slatMax);
+  if (code == gr_slatUserDefn) ASSUME(sub < NU);
+  w.silf->m_numJusts = 0;                               // fonts without justification levels (SlotJustify records hold one level)
+  int before = cur->getAttr(w.seg, attrCode(code), sub);
+  (void)before;
+  int16 ua_before[NU ? NU : 1]; for (unsigned k = 0; k < NU; ++k) ua_before[k] = cur->m_userAttr[k];
+  int16 value = (int16)nondet_u16();
+  cur->setAttr(w.seg, attrCode(code), sub, value, smap);
+  ASSERT(inv_stream(w) && inv_forest(w), "setAttr (other than attach.to) leaves links and attachments alone");
+  for (unsigned k = 0; k < NU; ++k)
+    if (!((code == gr_slatUserDefn && sub == k) || (code == gr_slatUserDefnV1 && k == 0))) ASSERT(cur->m_userAttr[k] == ua_before[k], "user attributes: only the named entry changes");
+  if (code == gr_slatUserDefn && sub < NU) ASSERT(cur->m_userAttr[sub] == value && cur->getAttr(w.seg, gr_slatUserDefn, sub) == value, "user attribute: get after set");
+  VH_END();
+}
